@@ -272,7 +272,7 @@ Fixpoint sids (s : tspec) : list nat :=
   | Leaf n _ | SkipLeaf n => [n]
   | Nest n l | Chain n l | Alt n l | OrS n l | AltD n l => n :: flat_map sids l
   | Switch n cs => n :: flat_map (fun kv => let '(k, v) := kv in sids k ++ sids v) cs
-  | Guard n _ k => n :: sids k end.
+  | Guard n _ k | NotS n k => n :: sids k end.
 Definition wf (s : tspec) : Prop := NoDup (sids s) /\ Forall (fun n => n < 1000) (sids s).
 Definition raised (e : nat) (l : list nat) : Prop := exists n, In n l /\ (e = n \/ e = 5000 + n \/ e = 6000 + n).
 
